@@ -76,9 +76,10 @@ def main():
     meta["checks"] = res
     meta["caught_by"] = [c for c, r in res.items() if r["exit"] == 1]
     meta["undecided_in"] = [c for c, r in res.items() if r["exit"] == 2]
+    meta["checker_error_in"] = [c for c, r in res.items() if r["exit"] not in (0, 1, 2)]
     meta["what_was_run"] = "tools/seed_eval.py: demo with/without the change; " + ("non-Docker test suite with the change; " if run_tests else "") + "./vf check <ID> --tier quick with KIO_REPO=<changed worktree> for " + ",".join(checks)
     json.dump(meta, open(os.path.join(out, "meta.json"), "w"), indent=1)
-    print(json.dumps({k: meta[k] for k in ("property", "name", "caught_by", "undecided_in")}))
+    print(json.dumps({k: meta[k] for k in ("property", "name", "caught_by", "undecided_in", "checker_error_in")}))
     print({k: v for k, v in meta.items() if k.startswith("demo") or k.startswith("tests")})
 
 
